@@ -212,6 +212,12 @@ fn oracle(c: &Case, st: &mut Stats) -> Result<(), String> {
     Some(names[idx(sel, names.len())].clone())
   };
 
+  // results must not depend on what was recovered just before: in half of the cases the
+  // honest collection is recovered first
+  if c.picks.len() % 2 == 0 {
+    let _ = recover_bytes(&honest, c.via_star)?;
+    st.class("preceded-by-honest-recovery");
+  }
   match &c.fault {
     Fault::None => {
       judge(&honest, None, "no fault", st)?;
